@@ -23,6 +23,8 @@ def plan(tier, seed):
     for j in range(3):
         specs.append({"name": f"beyond-defaults-{j}", "kind": "big", "beyond": j, "rounds": 0, "budget_s": 200})
     for j in range(2 if tier == "quick" else 4):
+        specs.append({"name": f"feedback-keywords-{j}", "kind": "feedback", "index": j * 4,
+                      "budget_s": 12 if tier == "quick" else 200})
         specs.append({"name": f"steered-values-{j}", "kind": "steered", "index": j * 3,
                       "budget_s": 14 if tier == "quick" else 240})
     from vlib import gen as _gen
@@ -156,6 +158,8 @@ def run_shard(spec, acc, ctx):
         run_big(spec, acc, ctx)
     elif spec.get("kind") == "steered":
         eng.run_steered(spec, acc, ctx, "present")
+    elif spec.get("kind") == "feedback":
+        eng.run_feedback(spec, acc, ctx, "present")
     else:
         eng.run(spec, acc, ctx, "present")
 
